@@ -458,3 +458,11 @@ PROPERTIES["C02"]["runs"] += [
          args=dict(sample_every=197, max_samples=12)),
 ]
 PROPERTIES["C02"]["bounds"]["quick"] += " and the 966 P01L programs (loops, switch-on-nil, receivers)"
+
+PROPERTIES["C08"]["runs"] += [
+    dict(pkg="accumulation", files=PIPE_FILES, entry="Harness_P08_Ok", args=dict(sample_every=23, max_samples=16)),
+]
+PROPERTIES["C08"]["explanation"] += (" P08 also covers named results with bare returns; Harness_P08_Ok is the same family for the (value, ok) form with constant ok operands (two return statements, explicit or through named results, "
+    "forwarding, seven caller forms incl. an overwritten ok variable).")
+PROPERTIES["C08"]["bounds"]["quick"] = PROPERTIES["C08"]["bounds"]["quick"].replace("all 440 callee x caller programs of the P08 family", "all 1144 callee x caller programs of the P08 family (error form) and all 448 of the (value, ok) form")
+PROPERTIES["C08"]["outside"] = [o.replace("ok-returning functions and named results at source level; ", "non-constant ok operands; the precision clause (A2) for bare returns of a named ok result; ") for o in PROPERTIES["C08"]["outside"] if o != "ok-returning functions"]
